@@ -131,8 +131,8 @@ impl Prop for C02 {
     }
     fn budget(&self, tier: Tier) -> u64 {
         match tier {
-            Tier::Quick => 300_000,
-            Tier::Thorough => 8_000_000,
+            Tier::Quick => 600_000,
+            Tier::Thorough => 10_000_000,
         }
     }
     fn required_labels(&self) -> Vec<&'static str> {
